@@ -2020,6 +2020,9 @@ class XNor(Any):
     """
 
     def __init__(self, *propositions, variable: typing.Union[puan.variable, str] = None):
+        # keeps the propositions as given: they cannot be told
+        # from the two negated sub propositions in general
+        self.xnor_propositions = AtLeast(value=1, propositions=propositions).propositions
         super().__init__(
             AtLeast(value=1, propositions=propositions).negate(), 
             AtMost(value=1, propositions=propositions).negate(), 
@@ -2078,7 +2081,7 @@ class XNor(Any):
             'propositions': list(
                 map(
                     maz.compose(operator.methodcaller("to_json")),
-                    self.propositions[0].negate().propositions
+                    getattr(self, "xnor_propositions", self.propositions[0].negate().propositions)
                 )
             ) if len(self.propositions) > 0 else [],
         }
